@@ -44,6 +44,19 @@ def _dyadic_case(draw, tier):
     ops_a = draw(history.op_lists(cfg, min_ops=1, max_ops=10, max_sweep=30, allow_point=True))
     ops_b = draw(history.op_lists(cfg, min_ops=0, max_ops=10, max_sweep=30, allow_point=True))
     targets = draw(history.op_lists(cfg, min_ops=1, max_ops=5, max_sweep=6, allow_point=True))
+    if draw(st.booleans()):
+        # times that are NOT on the tolerance grid (the library resolves them to it): a cluster of nearby raw times, asked
+        # in one order in history A, in the reverse order in history B and again as targets - order independence must hold
+        # for what they resolve to
+        span = cfg["t1"] - cfg["t0"]
+        c = cfg["t0"] + span * draw(st.integers(50, 950)) / 1000.0
+        w = max(cfg["tol"], 1e-9) * draw(st.sampled_from([0.2, 0.6, 1.3, 3.1]))
+        pts = sorted({min(cfg["t1"], c + w * k) for k in range(6)})
+        raws = [["raw", a_, b_] for a_, b_ in zip(pts[:-1], pts[1:])] + [["raw", pts[0], pts[-1]], ["raw", pts[1], pts[-2]]]
+        raws = [r for r in raws if r[1] < r[2]]
+        ops_a = ops_a + raws
+        ops_b = list(reversed(raws)) + ops_b
+        targets = targets + raws[::2]
     cache_b = draw(st.sampled_from([0, 1, 5, 45, None])) if cfg["wrapper"] == "interval" else 45
     return {"kind": "dyadic", "cfg": cfg, "ops_a": ops_a, "ops_b": ops_b, "targets": targets, "cache_b": cache_b}
 
